@@ -298,6 +298,24 @@ func classifyLoop(r *core.Run, f *ssa.Function, l *cfgx.Loop) loopClass {
 					continue
 				}
 				if !invariant(l, bound, 0) {
+					// an upward count against the length of a list that the loop only ever shortens (elements
+					// spliced out, reslices): the distance still shrinks on every cycle
+					if d, _ := inductionDir(l, phi); d > 0 && nonIncreasingLen(l, bound) {
+						cont := op
+						if ex.exitIdx == 0 {
+							switch op {
+							case token.GEQ:
+								cont = token.LSS
+							case token.GTR:
+								cont = token.LEQ
+							default:
+								cont = token.ILLEGAL
+							}
+						}
+						if cont == token.LSS || cont == token.LEQ {
+							return loopClass{"counted-shrinking", "induction variable moves up by a constant on every back edge and the loop continues only while it is below the length of a list that the loop never lengthens"}
+						}
+					}
 					reasons = append(reasons, fmt.Sprintf("%s: the bound is not loop-invariant", res.Of(cond)))
 					continue
 				}
@@ -342,6 +360,78 @@ func classifyLoop(r *core.Run, f *ssa.Function, l *cfgx.Loop) loopClass {
 		reasons = append(reasons, "no conditional exit inside the loop")
 	}
 	return loopClass{"none", strings.Join(dedupe(reasons), "; ")}
+}
+
+// nonIncreasingLen: bound is len(L) where L, inside the loop, is only ever itself, its value from before the loop, a
+// reslice of itself, or itself with a stretch spliced out (append(L[:a], L[b:]...) with b = a or a + non-negative
+// constant).
+func nonIncreasingLen(l *cfgx.Loop, bound ssa.Value) bool {
+	c, ok := bound.(*ssa.Call)
+	if !ok || len(c.Call.Args) != 1 {
+		return false
+	}
+	if b, ok := c.Call.Value.(*ssa.Builtin); !ok || b.Name() != "len" {
+		return false
+	}
+	web := map[ssa.Value]bool{}
+	var okAll = true
+	var visit func(v ssa.Value, d int)
+	visit = func(v ssa.Value, d int) {
+		if web[v] || !okAll {
+			return
+		}
+		if d > 12 {
+			okAll = false
+			return
+		}
+		if !inLoop(l, v) {
+			return // value from before the loop
+		}
+		web[v] = true
+		switch x := v.(type) {
+		case *ssa.Phi:
+			for _, e := range x.Edges {
+				visit(e, d+1)
+			}
+		case *ssa.Slice:
+			if _, isSl := x.X.Type().Underlying().(*types.Slice); !isSl {
+				okAll = false
+				return
+			}
+			visit(x.X, d+1)
+		case *ssa.Call:
+			bi, isB := x.Call.Value.(*ssa.Builtin)
+			if !isB || bi.Name() != "append" || len(x.Call.Args) != 2 {
+				okAll = false
+				return
+			}
+			s1, ok1 := x.Call.Args[0].(*ssa.Slice)
+			s2, ok2 := x.Call.Args[1].(*ssa.Slice)
+			if !ok1 || !ok2 || s1.Low != nil || s1.High == nil || s2.High != nil || s2.Low == nil || s1.X != s2.X {
+				okAll = false
+				return
+			}
+			a, b := s1.High, s2.Low
+			fine := a == b
+			if bo, isBo := b.(*ssa.BinOp); isBo && bo.Op == token.ADD {
+				if k, isK := bo.Y.(*ssa.Const); isK && bo.X == a && k.Value != nil && constant.Sign(k.Value) >= 0 {
+					fine = true
+				}
+				if k, isK := bo.X.(*ssa.Const); isK && bo.Y == a && k.Value != nil && constant.Sign(k.Value) >= 0 {
+					fine = true
+				}
+			}
+			if !fine {
+				okAll = false
+				return
+			}
+			visit(s1.X, d+1)
+		default:
+			okAll = false
+		}
+	}
+	visit(c.Call.Args[0], 0)
+	return okAll
 }
 
 func dedupe(xs []string) []string {
@@ -521,3 +611,97 @@ func ruleL1(r *core.Run) {
 
 var _ = types.Typ
 var _ = term.AllFields
+
+// ruleSpliceSkip (T-splice-skip): a loop that counts an index up by one and, at that index, splices the element out
+// of the list (list = append(list[:i], list[i+1:]...)) and then carries on with i+1 never looks at the element that
+// moved into slot i: of two neighbouring matches the second one stays in the list. Accepted forms: leave the loop
+// after the splice (one match at most), step the index back, count downwards, or build a new list.
+func ruleSpliceSkip(r *core.Run, id string, pkgPrefixes ...string) {
+	n := 0
+	for _, f := range r.P.SortedFuncs(r.ConsensusFuncs()) {
+		if r.P.IsGenerated(f) || len(f.Blocks) == 0 {
+			continue
+		}
+		name := r.P.Name(f)
+		in := false
+		for _, p := range pkgPrefixes {
+			if strings.HasPrefix(name, p) {
+				in = true
+			}
+		}
+		if !in {
+			continue
+		}
+		for li, l := range cfgx.Loops(f) {
+			n++
+			for b := range l.Body {
+				for _, ins := range b.Instrs {
+					c, ok := ins.(*ssa.Call)
+					if !ok || len(c.Call.Args) != 2 {
+						continue
+					}
+					if bi, isB := c.Call.Value.(*ssa.Builtin); !isB || bi.Name() != "append" {
+						continue
+					}
+					s1, ok1 := c.Call.Args[0].(*ssa.Slice)
+					s2, ok2 := c.Call.Args[1].(*ssa.Slice)
+					if !ok1 || !ok2 || s1.Low != nil || s1.High == nil || s2.High != nil || s2.Low == nil || s1.X != s2.X {
+						continue
+					}
+					phi, isPhi := s1.High.(*ssa.Phi)
+					if !isPhi || phi.Block() != l.Header {
+						continue
+					}
+					lo, isBo := s2.Low.(*ssa.BinOp)
+					if !isBo || lo.Op != token.ADD || lo.X != ssa.Value(phi) {
+						continue
+					}
+					// the index is stepped by +1 from its own value on every back edge (no path steps it back)
+					plain := true
+					nBack := 0
+					for pi, e := range phi.Edges {
+						if !l.Body[phi.Block().Preds[pi]] {
+							continue
+						}
+						nBack++
+						inc, isInc := e.(*ssa.BinOp)
+						if !isInc || inc.Op != token.ADD || inc.X != ssa.Value(phi) {
+							plain = false
+							continue
+						}
+						if k, isK := inc.Y.(*ssa.Const); !isK || k.Value == nil || constant.Sign(k.Value) <= 0 {
+							plain = false
+						}
+					}
+					if !plain || nBack == 0 {
+						continue
+					}
+					// does the loop go on after the splice?
+					seen := map[*ssa.BasicBlock]bool{b: true}
+					q := []*ssa.BasicBlock{b}
+					goesOn := false
+					for len(q) > 0 && !goesOn {
+						x := q[0]
+						q = q[1:]
+						for _, sc := range x.Succs {
+							if sc == l.Header {
+								goesOn = true
+							}
+							if l.Body[sc] && !seen[sc] && sc != l.Header {
+								seen[sc] = true
+								q = append(q, sc)
+							}
+						}
+					}
+					key := core.Key(id, r.KeyName(f), fmt.Sprintf("loop#%d splice", li+1))
+					if goesOn {
+						r.Violate(id, key, r.P.Pos(c.Pos()), "the loop splices the element at its index out of the list and carries on with index+1: the element that moved into the freed slot is never examined, so of two neighbouring matches the second stays in the list (records removed elsewhere for it leave the list and the tables disagreeing)")
+					} else {
+						r.Discharge(id, key, r.P.Pos(c.Pos()), "the loop is left right after the splice")
+					}
+				}
+			}
+		}
+	}
+	r.Floor("splice_skip_loops_scanned_"+id, n, 3)
+}
